@@ -266,6 +266,52 @@ def run(prog, chk):
         oku = isinstance(tg, ast.Tuple) and [unparse(e) for e in tg.elts] == ["self.g", "self.p"]
         chk.ob("R4.result-unpacked-as-stored", "KexGex._parse_kexdh_gex_request#%d" % i, oku, fk.where(c),
                "result bound to %s; the pack stores (generator, modulus)" % (unparse(tg) if tg is not None else "?"))
+    # R4b: what the server does with the three numbers before it selects, evaluated over a 6x6x6 grid around its own
+    # limits: the preferred size is clamped into [server min, server max] (to the nearer end), a consistent request
+    # inside the limits is passed on unchanged, min <= preferred <= max afterwards, and the client's range is never
+    # narrowed by the fix-ups
+    folder = __import__("pvf.core.consts", fromlist=["Folder"]).Folder(prog)
+    cenv = folder.class_env("KexGex")
+    smin, smax = cenv.get("min_bits"), cenv.get("max_bits")
+    if not (isinstance(smin, int) and isinstance(smax, int) and smin < smax):
+        raise AnalysisError("KexGex.min_bits/max_bits", "did not fold to integers: %r %r" % (smin, smax))
+    grid = sorted(set([smin // 2, smin, smin * 2, (smin + smax) // 2, smax, smax * 2]))
+    kps = kg.params()
+    badg = None
+    ng = 0
+    for (mn, pf, mx) in itertools.product(grid, repeat=3):
+        ng += 1
+        got = []
+        vals = [mn, pf, mx]
+        msg = Obj(get_int=lambda vals=vals: vals.pop(0))
+        packo = Obj(get_modulus=lambda a, b, c, got=got: (got.append((a, b, c)) or (2, 23)))
+        tr = Obj(_get_modulus_pack=lambda packo=packo: packo, _log=lambda *a, **k: None, _send_message=lambda m_: None, _expect_packet=lambda *a: None)
+        selfo = Obj(min_bits=smin, max_bits=smax, preferred_bits=0, transport=tr)
+        mk = lambda: Obj(add_byte=lambda v: None, add_mpint=lambda v: None, add_int=lambda v: None, add_string=lambda v: None)
+        free = dict((nm.id, nm.id) for nm in ast.walk(kg.node) if isinstance(nm, ast.Name) and (nm.id.startswith("c_MSG_") or nm.id.startswith("_MSG_") or nm.id == "DEBUG"))
+        it = Interp(intrinsics=dict(free, Message=mk), arith=False)
+        try:
+            kind, val = it.call_function(kg.node, {kps[0]: selfo, kps[1]: msg})
+        except Refuse as e:
+            raise AnalysisError("KexGex._parse_kexdh_gex_request", "not evaluable: %s" % (e,))
+        want_pf = smin if pf < smin else (smax if pf > smax else pf)
+        why = None
+        if kind != "return" or len(got) != 1:
+            why = "%s, get_modulus called %d time(s)" % (kind, len(got))
+        else:
+            a, b, c = got[0]
+            if b != want_pf:
+                why = "preferred %d became %d (want %d: clamped into [%d, %d])" % (pf, b, want_pf, smin, smax)
+            elif not (a <= b <= c):
+                why = "asks for (%d, %d, %d): not ordered" % (a, b, c)
+            elif a > mn or c < mx:
+                why = "range narrowed: client (%d, %d) -> (%d, %d)" % (mn, mx, a, c)
+            elif smin <= mn <= pf <= mx <= smax and (a, b, c) != (mn, pf, mx):
+                why = "consistent request changed to (%d, %d, %d)" % (a, b, c)
+        if why and badg is None:
+            badg = "request (%d, %d, %d): %s" % (mn, pf, mx, why)
+    chk.ob("R4.request-clamped-not-narrowed", "KexGex._parse_kexdh_gex_request", badg is None, kg.loc,
+           "%d requests evaluated%s" % (ng, "" if badg is None else "; first failing: " + badg))
     ko = prog.func("KexGex._parse_kexdh_gex_request_old")
     fo = Flow(prog, ko, implicit=False)
     for i, (n, c) in enumerate(fo.nodes_with_call(attr="get_modulus")):
